@@ -13,6 +13,11 @@ from diffrun import *
 import snapshots
 
 HOOK_MARK = "HWLOC_VERIF_STAGE_DUMP"
+# second part of the hook (hooks/stage-dump-2.patch): the boundaries after hwloc_filter_bridges (rm_before), remove_empty (rm_after),
+# hwloc__reconnect(KEEPSTRUCTURE) (ks_after), propagate_total_memory (mem_after), hwloc_set_group_depth (final).  When the source does not
+# contain it the blocks are simply absent: the comparisons are skipped and counted as `stage_absent`.
+HOOK2_MARK = "hwloc_verif_stage_dump2"
+STAGES2 = ("rm_before", "rm_after", "ks_after", "mem_after", "final")
 # An input of the stage that violates PreSets is outside the hypotheses of the C01_setstage theorems.  It is not by itself a violation of
 # property C01 (the model/C comparison and the topo-load oracle still judge the case), so by default it is counted and shown in the
 # evidence (`pre_violated`, `pre_violation_samples`) instead of failing the check.  On the bundled sources it never happens.
@@ -22,6 +27,13 @@ PRE_VIOLATION_IS_PROBLEM = True
 def hook_present():
     try:
         return HOOK_MARK in open(os.path.join(REPO, "hwloc", "topology.c"), errors="replace").read()
+    except OSError:
+        return False
+
+
+def hook2_present():
+    try:
+        return HOOK2_MARK in open(os.path.join(REPO, "hwloc", "topology.c"), errors="replace").read()
     except OSError:
         return False
 
@@ -49,7 +61,7 @@ def verdicts(dump_path, mout):
         if dl.startswith("CASE "):
             line = dl[5:]
             cur = out.setdefault(line.split()[0], {"line": line, "loaded": False, "pre": None, "post": None, "bad": [],
-                                                   "nested": 0, "disallowed": False})
+                                                   "nested": 0, "disallowed": False, "s2": {}})
             stage, mem, first = None, set(), None
         elif cur is None:
             continue
@@ -72,6 +84,14 @@ def verdicts(dump_path, mout):
             continue
         if dl.startswith("LOADED "):
             cur["loaded"] = dl.split()[2] == "1"
+            if ml != ".":
+                cur["bad"].append(ml)
+        elif dl.startswith("END2 "):
+            cur["s2"][dl.split()[1]] = ml
+            if ml.startswith("UNSUPPORTED2 "):
+                cur["s2_unsupported"] = ml
+            elif not ml.startswith("ok2 "):
+                cur["bad"].append(ml)
         elif dl == "END before":
             cur["pre"] = ml
             if not ml.startswith("pre "):
@@ -115,6 +135,12 @@ def judge(v):
         return "the topology loaded but the stage dump is incomplete (before=%s after=%s)" % (v["pre"], v["post"])
     if v["pre"] is not None and v["post"] is None:
         return "a BEFORE block without an AFTER block"
+    s2 = v.get("s2", {})
+    if s2 and not v.get("s2_unsupported"):
+        if v["loaded"] and any(k not in s2 for k in STAGES2):
+            return "the topology loaded but the later stage dumps are incomplete: " + ",".join(sorted(s2))
+        if "rm_before" not in s2:
+            return "later stage dumps without rm_before: " + ",".join(sorted(s2))
     if PRE_VIOLATION_IS_PROBLEM and v["pre"] is not None and v["pre"] != "pre ok":
         return "the input of the stage violates the precondition PreSets of the C01_setstage theorems: " + v["pre"]
     return None
@@ -141,7 +167,8 @@ def run_engine(tier, seed, sizes=None):
     sources = os.path.join(workdir, "sources.txt")
     nsrc = snapshots.write_sources(sources, "XFC")
     pre_samples = []
-    problems, stats, distinct, samples = [], {"hook": "present", "stage_ran": 0, "load_failed_before_stage": 0, "corpus": 0}, set(), []
+    problems, stats, distinct, samples = [], {"hook": "present", "hook2": "present" if hook2_present() else "absent",
+                                              "stage_ran": 0, "load_failed_before_stage": 0, "corpus": 0}, set(), []
 
     def account(v, seed_, libxml, record=True):
         why = judge(v)
@@ -165,6 +192,28 @@ def run_engine(tier, seed, sizes=None):
             stats["nested_memory_objects"] = stats.get("nested_memory_objects", 0) + v["nested"]
             if v.get("disallowed"):
                 stats["nested_memory_and_disallowed_removed"] = stats.get("nested_memory_and_disallowed_removed", 0) + 1
+        s2 = v.get("s2", {})
+        if v["pre"] and v["loaded"] and not s2:
+            stats["stage_absent"] = stats.get("stage_absent", 0) + 1
+        if v.get("s2_unsupported"):
+            stats["stage2.unsupported"] = stats.get("stage2.unsupported", 0) + 1
+            if len(pre_samples) < 5:
+                pre_samples.append("%s -> %s" % (v["line"][:200], v["s2_unsupported"]))
+        if "rm_before" in s2 and "rm_after" not in s2 and not v.get("s2_unsupported"):
+            stats["stage2.root_removed_load_failed"] = stats.get("stage2.root_removed_load_failed", 0) + 1
+        for nm, ml in s2.items():
+            if not ml.startswith("ok2 "):
+                continue
+            stats["stage2.%s.compared" % nm] = stats.get("stage2.%s.compared" % nm, 0) + 1
+            f = dict(x.split("=") for x in ml.split()[2:])
+            for key, cond in (("removed", lambda x: x > 0), ("miscmoved", lambda x: x > 0), ("merged", lambda x: x > 0),
+                              ("nonzero", lambda x: x > 0), ("groups", lambda x: x > 0), ("grouplevels", lambda x: x > 1),
+                              ("numa", lambda x: x > 1)):
+                if key in f and cond(int(f[key])):
+                    stats["stage2.%s.%s" % (nm, key)] = stats.get("stage2.%s.%s" % (nm, key), 0) + 1
+            for key in ("typed", "alive", "exact"):
+                if key in f and int(f[key]) == 0:
+                    stats["stage2.%s.not_%s" % (nm, key)] = stats.get("stage2.%s.not_%s" % (nm, key), 0) + 1
         if v["pre"]:
             stats["stage_ran"] += 1
             k = "pre_ok" if v["pre"] == "pre ok" else "pre_violated"
